@@ -51,7 +51,9 @@ VARIABLES seg,      \* durable log: Seq of frame / commit records
           hist      \* history: completed op-level steps with the predicted outcome
 vars == <<seg, synced, co, pend, nextTx, issued, hist>>
 
-Bound == 8          \* request.budget.max_settlement_bytes used by every request of the model
+Bound == 8          \* request.budget.max_settlement_bytes used by every request of the model.
+                    \* Sizes only matter relative to Bound; the harness replays the behaviours under two readings of it:
+                    \* 8 bytes, and the protocol ceiling MAX_EXTERNAL_ACTION_SETTLEMENT_BYTES_V1 (runner/c17.py ceiling_leg)
 
 Range(s) == {s[i] : i \in DOMAIN s}
 
